@@ -458,3 +458,73 @@ DecResult decode_st(int kind, const Bytes &file, uint32_t flags, uint64_t memlim
 	lzma_end(&s);
 	return res;
 }
+
+// ------------------------------------------------------- dirty handles
+DirtySpec g_dirty;
+
+namespace {
+struct DirtyArts {
+	Bytes lzma_unknown, lzma_known, xz2, lz2, raw2, text;
+	lzma_options_lzma lz;
+	bool ok = false;
+	DirtyArts()
+	{
+		text = gen_input(IN_TEXT, 3000, 4242);
+		std::string err;
+		lzma_lzma_preset(&lz, 0);
+		lz.dict_size = 1 << 20;
+		if (!lzma_build(text, &lz, lzma_unknown, err)) return;
+		lzma_known = lzma_unknown;
+		// known size: the stream still ends with its end marker, which is valid
+		for (int i = 0; i < 8; ++i) lzma_known[5 + (size_t)i] = (uint8_t)((uint64_t)text.size() >> (8 * i));
+		lzma_filter f[2] = { { LZMA_FILTER_LZMA2, &lz }, { LZMA_VLI_UNKNOWN, nullptr } };
+		std::vector<size_t> bs = { 1200, 1800 };
+		if (!xz_build_sized(text, bs, f, LZMA_CHECK_SHA256, xz2, nullptr, err)) return;
+		Bytes a(text.begin(), text.begin() + 1500), b(text.begin() + 1500, text.end());
+		if (!lz_build_member(a, 1, 0x14, lz2, err) || !lz_build_member(b, 0, 0x0C, lz2, err)) return;
+		lzma_stream s = LZMA_STREAM_INIT;
+		if (lzma_raw_encoder(&s, f) != LZMA_OK) return;
+		Bytes buf(8192); s.next_in = text.data(); s.avail_in = text.size(); s.next_out = buf.data(); s.avail_out = buf.size();
+		if (lzma_code(&s, LZMA_FINISH) != LZMA_STREAM_END) { lzma_end(&s); return; }
+		raw2.assign(buf.data(), buf.data() + (buf.size() - s.avail_out));
+		lzma_end(&s);
+		ok = true;
+	}
+};
+}
+
+void dirty_preuse(lzma_stream *s)
+{
+	static DirtyArts A;
+	if (!A.ok) return;
+	lzma_filter f[2] = { { LZMA_FILTER_LZMA2, &A.lz }, { LZMA_VLI_UNKNOWN, nullptr } };
+	const Bytes *in = nullptr;
+	lzma_ret r = LZMA_PROG_ERROR;
+	bool partial = false, encoder = false;
+	switch (g_dirty.kind) {
+	case 1: r = lzma_alone_decoder(s, UINT64_MAX); in = &A.lzma_unknown; break;
+	case 2: r = lzma_alone_decoder(s, UINT64_MAX); in = &A.lzma_known; break;
+	case 3: r = lzma_alone_decoder(s, UINT64_MAX); in = &A.lzma_known; partial = true; break;
+	case 4: r = lzma_stream_decoder(s, UINT64_MAX, LZMA_CONCATENATED); in = &A.xz2; break;
+	case 5: r = lzma_stream_decoder(s, UINT64_MAX, LZMA_TELL_ANY_CHECK); in = &A.xz2; partial = true; break;
+	case 6: r = lzma_lzip_decoder(s, UINT64_MAX, LZMA_CONCATENATED); in = &A.lz2; break;
+	case 7: r = lzma_auto_decoder(s, UINT64_MAX, 0); in = &A.lzma_known; partial = (g_dirty.seed & 1) != 0; break;
+	case 8: r = lzma_easy_encoder(s, 1, LZMA_CHECK_CRC64); in = &A.text; encoder = true; partial = true; break;
+	case 9: r = lzma_raw_decoder(s, f); in = &A.raw2; break;
+	default: { lzma_mt mt; memset(&mt, 0, sizeof mt); mt.threads = 2; mt.memlimit_stop = UINT64_MAX; mt.memlimit_threading = UINT64_MAX; r = lzma_stream_decoder_mt(s, &mt); in = &A.xz2; break; }
+	}
+	if (r != LZMA_OK) return;
+	size_t n = in->size();
+	if (partial) n = 14 + (size_t)(g_dirty.seed % (in->size() - 14));
+	Bytes ib(in->begin(), in->begin() + (long)n), ob(8192);
+	s->next_in = ib.data(); s->avail_in = ib.size();
+	for (int guard = 0; guard < 1000; ++guard) {
+		s->next_out = ob.data(); s->avail_out = ob.size();
+		r = lzma_code(s, partial || encoder ? LZMA_RUN : LZMA_FINISH);
+		if (r == LZMA_GET_CHECK || r == LZMA_NO_CHECK || r == LZMA_UNSUPPORTED_CHECK) continue;
+		if (r != LZMA_OK) break;
+		if (s->avail_in == 0 && s->avail_out != 0) { if (partial || encoder) break; }
+	}
+	s->next_in = nullptr; s->avail_in = 0; s->next_out = nullptr; s->avail_out = 0;
+	++g_dirty.uses;
+}
